@@ -49,6 +49,7 @@ static void debugHook()
 // plain differential comparison (DESIGN §3): relative 1e-10, absolute floor 1e-12 * scale
 static bool same(double a, double b, double scale, double rel = 1e-10)
 {
+  if (a == b) return true; // also equal infinities
   if (std::isnan(a) || std::isnan(b)) return std::isnan(a) && std::isnan(b); // the same degenerate ratio on both sides
   if (na(a) || na(b)) return na(a) && na(b);
   return std::fabs(a - b) <= rel * std::max(std::fabs(a), std::fabs(b)) + 1e-12 * scale;
@@ -1174,7 +1175,7 @@ static void runVario(const VarioC& c, Ctx& ctx)
   if (keep.empty()) { ctx.label("reduced:no-data"); return; }
   std::unique_ptr<Db> db2 = buildDb(d, &keep);
   std::unique_ptr<Vario> v2 = computeVario(c, db2.get(), ctx);
-  if ((v1 == nullptr) != (v2 == nullptr)) { ctx.fail(V + ":error-status:" + MK, CN + fmt(" compute() %s with the masked Db and %s with the reduced Db", v1 ? "succeeds" : "fails", v2 ? "succeeds" : "fails")); return; }
+  if ((v1 == nullptr) != (v2 == nullptr)) { ctx.fail(V + ":" + MK + ":error-status", CN + fmt(" compute() %s with the masked Db and %s with the reduced Db", v1 ? "succeeds" : "fails", v2 ? "succeeds" : "fails")); return; }
   if (!v1) { ctx.label("both-refused"); return; }
   double zs = dbScale(d), z2 = std::max(1e-300, zs * zs);
   if (c.calc == 7) z2 = z2 * z2;
@@ -1194,18 +1195,18 @@ static void runVario(const VarioC& c, Ctx& ctx)
         {
           double swScale = d.w.empty() ? 0. : std::max(std::fabs(sw1[l]), std::fabs(sw2[l]));
           bool swOk = d.w.empty() ? (sw1[l] == sw2[l]) : same(sw1[l], sw2[l], swScale);
-          if (!swOk) { ctx.fail(V + ":sw:" + MK, CN + fmt(" dir %d var (%d,%d) lag %d: %.15g pairs (weights) with the masked Db, %.15g after removing the %d masked/undefined samples", idir, iv, jv, (int)l, sw1[l], sw2[l], d.n() - (int)keep.size())); return; }
+          if (!swOk) { ctx.fail(V + ":" + MK + ":sw", CN + fmt(" dir %d var (%d,%d) lag %d: %.15g pairs (weights) with the masked Db, %.15g after removing the %d masked/undefined samples", idir, iv, jv, (int)l, sw1[l], sw2[l], d.n() - (int)keep.size())); return; }
           if (!na(sw1[l])) npairs += (long)sw1[l];
-          if (!same(hh1[l], hh2[l], c.dlag * c.nlag)) { ctx.fail(V + ":hh:" + MK, CN + fmt(" dir %d var (%d,%d) lag %d: mean distance %.15g with the masked Db, %.15g with the reduced Db", idir, iv, jv, (int)l, hh1[l], hh2[l])); return; }
-          if (!same(gg1[l], gg2[l], z2)) { ctx.fail(V + ":gg:" + MK, CN + fmt(" dir %d var (%d,%d) lag %d: value %.15g with the masked Db, %.15g with the reduced Db", idir, iv, jv, (int)l, gg1[l], gg2[l])); return; }
+          if (!same(hh1[l], hh2[l], c.dlag * c.nlag)) { ctx.fail(V + ":" + MK + ":hh", CN + fmt(" dir %d var (%d,%d) lag %d: mean distance %.15g with the masked Db, %.15g with the reduced Db", idir, iv, jv, (int)l, hh1[l], hh2[l])); return; }
+          if (!same(gg1[l], gg2[l], z2)) { ctx.fail(V + ":" + MK + ":gg", CN + fmt(" dir %d var (%d,%d) lag %d: value %.15g with the masked Db, %.15g with the reduced Db", idir, iv, jv, (int)l, gg1[l], gg2[l])); return; }
         }
       }
   // global statistics stored in the variogram
   for (int iv = 0; iv < nv; iv++)
   {
-    if (!same(v1->getMean(iv), v2->getMean(iv), zs)) { ctx.fail(V + ":mean", CN + fmt(" mean of variable %d: %.15g with the masked Db, %.15g with the reduced Db", iv, v1->getMean(iv), v2->getMean(iv))); return; }
+    if (!same(v1->getMean(iv), v2->getMean(iv), zs)) { ctx.fail("vario-mean:" + MK, CN + fmt(" mean of variable %d: %.15g with the masked Db, %.15g with the reduced Db", iv, v1->getMean(iv), v2->getMean(iv))); return; }
     for (int jv = 0; jv <= iv; jv++)
-      if (!same(v1->getVar(iv, jv), v2->getVar(iv, jv), zs * zs)) { ctx.fail(V + ":var:" + MK, CN + fmt(" variance (%d,%d): %.15g with the masked Db, %.15g with the reduced Db", iv, jv, v1->getVar(iv, jv), v2->getVar(iv, jv))); return; }
+      if (!same(v1->getVar(iv, jv), v2->getVar(iv, jv), zs * zs)) { ctx.fail(V + ":" + MK + ":var", CN + fmt(" variance (%d,%d): %.15g with the masked Db, %.15g with the reduced Db", iv, jv, v1->getVar(iv, jv), v2->getVar(iv, jv))); return; }
   }
   // non-trivial: a removed sample lies within the range of lags of a kept one
   bool matter = false;
@@ -1860,6 +1861,13 @@ static void runAnam(const AnamC& c, Ctx& ctx)
   };
   std::unique_ptr<AAnam> a1 = mk(), a2 = mk();
   ctx.at(V);
+  // fewer than 3 usable values: the fit itself misbehaves (index -1 in AnamHermite::_data_sort with one value,
+  // "Interval is not valid" thrown by AnamEmpirical with none), with or without a selection: C18's matter
+  {
+    int nuse = 0;
+    for (int i : keep) nuse += na(d.zv(i, 0)) ? 0 : 1;
+    if (nuse < 3) { ctx.label("skipped:fewer-than-3-values"); return; }
+  }
   auto fit = [&](AAnam* a, Db* db) { return c.byName ? a->fit(db, "z1") : a->fitFromLocator(db, ELoc::Z); };
   int e1 = fit(a1.get(), db1.get());
   std::string what;
